@@ -187,4 +187,44 @@ CHECKS = {
         "required_probes": ["authentic_opened", "member_forgery_attempted"],
         "assumptions": COMMON_ASSUMPTIONS + ["the emission point of MessageStore (GroupMessageEvent) is exercised by C08, here the observation point is the secret store API the message store calls"],
     },
+    "C14": {
+        "pkg": "pkg/secretstore",
+        "test": "TestVerifC14",
+        "level": "exploration",
+        "quick": {"procs": 32, "checks_per_proc": 400},
+        "thorough": {"procs": 64, "checks_per_proc": 4000},
+        "rule": "one case = a receiver without network, 1-2 senders x 1-2 groups, message-key window and reference window each from "
+                "{1,2,3,100}, messages sealed before and after the announcement, then a seeded schedule of log deliveries, push "
+                "deliveries (genuine, bit-flipped, unknown group reference), repetitions and receiver restarts; non-trivial = always "
+                "(each schedule mixes both paths); distinct = distinct hash of the delivery/outcome trace.",
+        "required_probes": ["push_must_open", "push_opened", "reference_window_edge"],
+        "assumptions": COMMON_ASSUMPTIONS + ["the reference-window update that MessageStore.processMessage performs after a log delivery is performed by the harness"],
+    },
+    "C05": {
+        "level": "exploration",
+        "parts": [
+            {"pkg": "pkg/secretstore", "test": "TestVerifC05a",
+             "quick": {"procs": 16, "checks_per_proc": 60}, "thorough": {"procs": 32, "checks_per_proc": 600}},
+        ],
+        "rule": "part (a): one case = (group type, window, sender history of 0-8 messages, announcement taken at a drawn counter) x "
+                "{right recipient; another party in the same group; right recipient in another group; another claimed sender; every "
+                "single-bit flip of the ciphertext; truncated/extended/empty blobs}, each attempt on a clone of the party's durable "
+                "state; non-trivial = always; distinct = distinct hash of the trace.",
+        "required_probes": ["right_recipient_registered", "same_keys_other_group"],
+        "assumptions": COMMON_ASSUMPTIONS,
+    },
+    "C11": {
+        "pkg": "pkg/secretstore",
+        "test": "TestVerifC11",
+        "level": "exploration",
+        "quick": {"procs": 32, "checks_per_proc": 150},
+        "thorough": {"procs": 64, "checks_per_proc": 1500},
+        "rule": "one case = 2-3 accounts growing to several devices through export/import, with a seeded sequence of first uses of "
+                "derived keys in both orders, restarts, loss of the recomputable key-cache class on SimDisk, imports refused on used "
+                "stores and malformed imports (equal keys, non-Ed25519, garbage, truncated, empty); after EVERY step the cross-store "
+                "invariants are evaluated over all stores. non-trivial = an import, a restart, a cache loss or a refused import "
+                "occurred; distinct = distinct hash of the step trace.",
+        "required_probes": [],
+        "assumptions": COMMON_ASSUMPTIONS,
+    },
 }
